@@ -46,7 +46,7 @@ If(c, what) == IF c THEN T(what) ELSE {}
 
 \* components in which the logged store differs from the one C18 requires
 DiffTags(post, want) ==
-    If(post.db.towers # want.db.towers, "db.towers") \cup If(post.db.regs # want.db.regs, "db.regs")
+    If(post.db.towers # want.db.towers, "db.towers") \cup If(RegsView(post.db) # RegsView(want.db), "db.regs")
     \cup If(post.db.rcpts # want.db.rcpts, "db.rcpts") \cup If(post.db.pend # want.db.pend, "db.pend")
     \cup If(post.db.inv # want.db.inv, "db.inv") \cup If(post.db.bodies # want.db.bodies, "db.bodies")
     \cup If(post.db.proofs # want.db.proofs, "db.proofs") \cup If(post.mem # want.mem, "mem")
@@ -86,8 +86,8 @@ StepOp ==
                 (IF ~Sane(st) THEN T("malformed-pre")
                  ELSE IF ~OpEnabled(st, op) THEN {<<ln, "HARNESS", "operation not enabled: " \o op.k>>}
                  ELSE LET want == OpIntended(st, op)
-                      IN (IF post \in OpSuccs(st, op)
-                          THEN If(post # want, "S16")
+                      IN (IF Norm(post) \in {Norm(x) : x \in OpSuccs(st, op)}
+                          THEN If(Norm(post) # Norm(want), "S16")
                           ELSE DiffTags(post, want))
                          \cup If(OpResults(st, op) # {} /\ Ev.res \notin OpResults(st, op), "result")
                          \cup (IF op.k = "reload"
